@@ -3,6 +3,7 @@ package generator
 import (
 	"fmt"
 	"reflect"
+	"strconv"
 	"strings"
 
 	"github.com/pkg/errors"
@@ -266,14 +267,20 @@ func (v *stringValidator) generate(out *codegen.Emitter, format string) {
 			out.Indent(1)
 		}
 
+		// A raw string literal cannot hold a backtick: such a pattern is emitted as an interpreted literal.
+		pattern := "`" + v.pattern + "`"
+		if strings.Contains(v.pattern, "`") {
+			pattern = strconv.Quote(v.pattern)
+		}
+
 		out.Printlnf(
-			`if matched, _ := regexp.MatchString(`+"`%s`"+`, string(%s%s)); !matched {`,
-			v.pattern, pointerPrefix, value,
+			`if matched, _ := regexp.MatchString(%s, string(%s%s)); !matched {`,
+			pattern, pointerPrefix, value,
 		)
 		out.Indent(1)
 		out.Printlnf(
-			`return fmt.Errorf("field %%s pattern match: must match %%s", "%s", `+"`%s`"+`)`,
-			v.fieldName, v.pattern,
+			`return fmt.Errorf("field %%s pattern match: must match %%s", "%s", %s)`,
+			v.fieldName, pattern,
 		)
 		out.Indent(-1)
 		out.Printlnf("}")
